@@ -222,6 +222,21 @@ class Mon(object):
         if HISTORY is not None and HISTORY.random() < HISTORY_P:
             import random
             hist = random.Random(HISTORY.randrange(1 << 30))
+        if hist is not None and parse and REPARSE and sd.get('subspecs') and sd.get('vars') and hist.random() < 0.4 \
+                and sd.get('text', '').lstrip().startswith('out ='):
+            # the object parsed an earlier version of its output assertion before the sub-specifications were added
+            # (a specification that grows: first `out = ...` over the inputs, then helper assertions and a new `out`)
+            try:
+                spec0 = build_spec(kind, dict(sd, subspecs=[], text='out = (%s >= 1);' % sd['vars'][0]))
+                spec0.parse()
+                for sub in sd['subspecs']:
+                    spec0.add_sub_spec(sub)
+                spec0.spec = sd['text']
+                self.spec = spec0
+                REC.counts['history:earlier-output-assertion-before-the-sub-specifications'] += 1
+                LAST_HISTORY.append('object #%d: an earlier output assertion was parsed before the sub-specifications were added' % self.oid)
+            except Exception:
+                self.spec = build_spec(kind, sd)
         if hist is not None and hist.random() < 0.3:
             self._refused_declaration(hist)
         if hist is not None and kind.startswith('dt') and hist.random() < 0.3:
@@ -233,6 +248,8 @@ class Mon(object):
             if hist is not None and REPARSE and hist.random() < 0.3:
                 self._reparse()
         if pastify:
+            if hist is not None and kind.startswith('dt') and hist.random() < 0.25:
+                self._failed_pastify(hist)
             self.pastify()
         self._hist = hist
         # a few online objects get, between their updates, calls that are rejected before any sample is consumed
@@ -305,6 +322,31 @@ class Mon(object):
             pass
         REC.counts['history-raised:bad-text-not-rejected'] += 1
         self.spec = build_spec(self.kind, sd)
+
+    def _failed_pastify(self, h):
+        """History: a pastify() that fails - under 7 times the sampling period a bound is (in general) not a multiple
+        of the period - and is repeated after the period was set back.  If it does not fail the object is rebuilt
+        (a pastified specification cannot be un-pastified).  Never raises."""
+        real = tuple(self.sd.get('period') or (1, 's', 0.1))
+        if not isinstance(real[0], int):
+            return
+        try:
+            self.spec.set_sampling_period(real[0] * 7, real[1], real[2] if len(real) > 2 else 0.1)
+            try:
+                self.spec.pastify()
+                failed = False
+            except RTAMTException:
+                failed = True
+            self.spec.set_sampling_period(*real)
+        except Exception:
+            failed = False
+        if failed:
+            REC.counts['history:failed-pastify'] += 1
+            LAST_HISTORY.append('object #%d: pastify() failed under the sampling period %s%s before the real one' % (
+                self.oid, real[0] * 7, real[1]))
+            return
+        self.spec = build_spec(self.kind, self.sd)
+        self.spec.parse()
 
     def _refused_configuration(self, h):
         """History: a set_sampling_period() call with a tolerance outside [0, 1], which rtamt refuses with an
